@@ -63,6 +63,10 @@ struct upipe_qsrc {
     struct urefcount urefcount;
     /** internal refcount structure */
     struct urefcount urefcount_real;
+    /** set by the thread dropping the last reference once it is done with
+     * the queue (it may still be inside uqueue_push() when the message is
+     * popped) */
+    uatomic_uint32_t ref_end_queued;
 
     /** upump manager */
     struct upump_mgr *upump_mgr;
@@ -142,6 +146,7 @@ static struct upipe *_upipe_qsrc_alloc(struct upipe_mgr *mgr,
     upipe_qsrc_init_upump(upipe);
     upipe_qsrc_init_upump_oob(upipe);
     upipe_qsrc->upipe_queue.max_length = length;
+    uatomic_init(&upipe_qsrc->ref_end_queued, 0);
     upipe_throw_ready(upipe);
 
     return upipe;
@@ -315,6 +320,7 @@ static void upipe_qsrc_free(struct upipe *upipe)
     upipe_qsrc_clean_urefcount(upipe);
     upipe_clean(upipe);
     struct upipe_qsrc *upipe_qsrc = upipe_qsrc_from_upipe(upipe);
+    uatomic_clean(&upipe_qsrc->ref_end_queued);
     free(upipe_qsrc);
 }
 
@@ -344,9 +350,17 @@ static void upipe_qsrc_oob(struct upump *upump)
             upipe_qsrc_source_end(upipe);
             break;
 
-        case UPIPE_QUEUE_DOWNSTREAM_REF_END:
+        case UPIPE_QUEUE_DOWNSTREAM_REF_END: {
+            struct upipe_qsrc *upipe_qsrc = upipe_qsrc_from_upipe(upipe);
+            /* the thread that dropped the last reference may not have
+             * returned from uqueue_push() yet: look at the message again
+             * on the next iteration rather than freeing the queue under it */
+            if (unlikely(!uatomic_load(&upipe_qsrc->ref_end_queued)) &&
+                uqueue_push(&upipe_queue(upipe)->downstream_oob, downstream))
+                return;
             upipe_qsrc_release_urefcount_real(upipe);
             break;
+        }
     }
 
     upipe_queue_downstream_free(downstream);
@@ -481,7 +495,10 @@ static void upipe_qsrc_no_ref(struct upipe *upipe)
                               downstream))) {
         upipe_warn(upipe, "unable to send downstream message");
         upipe_queue_downstream_free(downstream);
+        return;
     }
+    /* must be our very last access to the pipe */
+    uatomic_store(&upipe_qsrc->ref_end_queued, 1);
 }
 
 /** module manager static descriptor */
